@@ -32,7 +32,7 @@ ASSUMPTIONS = [
     "instants are dyadic rationals; comparisons use 1e-9 absolute tolerance",
 ]
 BUDGET = {"quick": 4000, "thorough": 25000}
-REQUIRED_CLASSES = {"behind-schedule": 100, "error-outcome": 100, "multi-client": 300, "completed-from-outside-with-request-in-flight": 100, "ramped-up-client": 150,
+REQUIRED_CLASSES = {"client-id-differs-from-global-client-index": 100, "behind-schedule": 100, "error-outcome": 100, "multi-client": 300, "completed-from-outside-with-request-in-flight": 100, "ramped-up-client": 150,
                     "failing-sub-request-in-nested-context": 100, "throttled-by-custom-scheduler-only": 100}
 TOL = 1e-9
 
